@@ -43,6 +43,13 @@ Definition l_mu : N := 1.        (* Metric's embedded RWMutex *)
 Definition l_search : N := 2.    (* Store.searchMu *)
 Definition l_insert : N := 3.    (* Store.insertMu *)
 Definition l_dmu : N := 4.       (* the datum's own mutex (Buckets' embedded RWMutex, String.mu) *)
+Definition l_emit : N := 5.      (* pseudo-lock of an exporter on a metric: "no emitter goroutine I
+                                    started is running unsupervised" - taken with the metric lock,
+                                    given up at the spawn and while an item received from the emitter
+                                    is being handled, retaken on arriving at the receive loop and when
+                                    the loop is back at its receive; leaving the loop any other way
+                                    than by the channel's close does not retake it *)
+Definition l_handle : N := 6.    (* Runtime.handleMu *)
 (* field names *)
 Definition f_LabelValues : N := 1.     (* Metric.LabelValues: slice header and elements *)
 Definition f_labelValuesMap : N := 2.  (* Metric.labelValuesMap *)
@@ -56,6 +63,11 @@ Definition f_FloatBits : N := 9.       (* datum.Float.Valuebits *)
 Definition f_Time : N := 10.           (* datum.BaseDatum.Time *)
 Definition f_BucketsData : N := 11.    (* datum.Buckets.Buckets Count Sum *)
 Definition f_StringValue : N := 12.    (* datum.String.Value *)
+Definition f_EmitterQuiet : N := 13.   (* pseudo-field read at every release of the metric lock by an
+                                          exporter that spawns an emitter: the emitter must have finished *)
+Definition f_handles : N := 14.        (* Runtime.handles *)
+Definition f_hlines : N := 15.         (* vmHandle.lines of the handles of a Runtime: send = read use,
+                                          close / replace = write *)
 
 Definition mtail_spec (f : N) : guard :=
   match f with
@@ -64,6 +76,8 @@ Definition mtail_spec (f : N) : guard :=
   | 7 => GLock l_search
   | 8 | 9 | 10 => GAtomic
   | 11 | 12 => GLock l_dmu
+  | 13 => GLock l_emit
+  | 14 | 15 => GLock l_handle
   | _ => GNone
   end.
 
@@ -381,3 +395,36 @@ Definition getdatum_recheck_shape : block :=
                              LIf LNil (lblock_of [LAcc 0 f_LabelValues KRead 6; LAcc 0 f_LabelValues KWrite 4;
                                                   LAcc 0 f_labelValuesMap KWrite 5]);
                              LRel 0 l_mu MW])].
+
+(* ---------- round 4: emitter supervision and the vm input channels ---------- *)
+(* an exporter closure on metric 2: lock (+ supervision), spawn (emitter reads,
+   supervision given up), arrive at the receive loop, per item: give it up,
+   emitter reads, handle the item, back at the receive; on a write error the
+   repaired code drains (a second receive loop run to the close) and leaves *)
+Definition emitter_item : list stmt := [LRel 2 l_emit MR; LAcc 2 f_LabelValues KRead 1].
+Definition exporter_drained_shape : block :=
+  lblock_of [LAcq 2 l_mu MR; LAcq 2 l_emit MR; LAcc 2 f_LabelValues KRead 1; LRel 2 l_emit MR;
+             LAcq 2 l_emit MR;
+             LLoop (lblock_of ([LIf (lblock_of [LBreak]) LNil] ++ emitter_item ++
+                      [LIf LNil (lblock_of [LAcq 2 l_emit MR;
+                                            LLoop (lblock_of ([LIf (lblock_of [LBreak]) LNil] ++ emitter_item ++ [LAcq 2 l_emit MR])) 3;
+                                            LBreak]);
+                       LAcq 2 l_emit MR])) 4;
+             LAcc 2 f_EmitterQuiet KRead 5; LRel 2 l_mu MR; LRel 2 l_emit MR].
+(* the seeded push writer: leaves the loop on a write error without draining *)
+Definition exporter_undrained_shape : block :=
+  lblock_of [LAcq 2 l_mu MR; LAcq 2 l_emit MR; LAcc 2 f_LabelValues KRead 1; LRel 2 l_emit MR;
+             LAcq 2 l_emit MR;
+             LLoop (lblock_of ([LIf (lblock_of [LBreak]) LNil] ++ emitter_item ++
+                      [LIf LNil (lblock_of [LBreak]); LAcq 2 l_emit MR])) 4;
+             LAcc 2 f_EmitterQuiet KRead 5; LRel 2 l_mu MR; LRel 2 l_emit MR].
+(* the line loop: hand-over under the read lock / on a snapshot after the unlock *)
+Definition lineloop_shape : block :=
+  lblock_of [LLoop (lblock_of [LAcq 1 l_handle MR; LAcc 1 f_handles KRead 1;
+                               LLoop (lblock_of [LAcc 1 f_handles KRead 2; LAcc 1 f_hlines KRead 3]) 4;
+                               LRel 1 l_handle MR]) 5].
+Definition lineloop_snapshot_shape : block :=
+  lblock_of [LLoop (lblock_of [LAcq 1 l_handle MR; LAcc 1 f_handles KRead 1;
+                               LLoop (lblock_of [LAcc 1 f_handles KRead 2; LAcc 1 f_hlines KRead 3]) 4;
+                               LRel 1 l_handle MR;
+                               LLoop (lblock_of [LAcc 1 f_hlines KRead 6]) 7]) 5].
